@@ -36,6 +36,10 @@ def feature_spec():
                        P("nums", "query", arr(I), explode=False), P("pnums", "query", arr({"type": "integer", "format": "int32"}), style="pipeDelimited"),
                        P("flags", "query", arr(B), explode=False)],   # explode defaults to false for these styles
                        "responses": ok}},
+        # required strings for which the schema itself admits the empty string (an explicit minLength 0, or only a maxLength)
+        "/zero": {"get": {"operationId": "get_zero", "parameters": [P("q0", "query", {"type": "string", "minLength": 0}, required=True), P("q1", "query", {"type": "string", "maxLength": 5}, required=True),
+                                                                    P("q2", "query", {"type": "string", "minLength": 0, "maxLength": 9}, required=True), P("X-Z", "header", {"type": "string", "minLength": 0}, required=True)],
+                          "responses": ok}},
         "/dual": {"parameters": [P("version", "header", S), P("X-Request-Id", "header", S), P("mode", "query", S)],
                   "get": {"operationId": "get_dual", "parameters": [P("version", "query", S), P("mode", "header", S)], "responses": ok}},
         "/headers": {"put": {"operationId": "put_headers", "parameters": [
@@ -93,6 +97,8 @@ def probes():
     out.append(("get_dual", {"version@header": "h1", "version@query": "q1", "X-Request-Id": "rid", "mode@query": "mq", "mode@header": "mh"}, None))
     out.append(("get_dual", {"version@header": "only-header"}, None))
     out.append(("get_dual", {"version@query": "only-query"}, None))
+    out.append(("get_zero", {"q0": "", "q1": "", "q2": "", "X-Z": ""}, None))
+    out.append(("get_zero", {"q0": "a b", "q1": "12345", "q2": "", "X-Z": "z"}, None))
     out.append(("put_headers", {"X-Trace-Id": "t-1"}, None))
     out.append(("put_headers", {"X-Trace-Id": "abc def;=,", "X-Count": -5, "X-Flag": True, "X-List": ["a", "b c"], "x-lower": "v"}, None))
     out.append(("put_headers", {"X-Trace-Id": "t", "X-List": []}, None))
@@ -413,6 +419,15 @@ def param_merge_part(exe, rnd, n, viol, dis):
     return n_cmp
 
 
+def ctor_line(client_name, kind, bp):
+    url = f'format!("http://127.0.0.1:{{}}{bp}", port)'
+    if kind == "client":
+        return f"let client = M::{client_name}::with_client({url}, reqwest::Client::new()).unwrap();"
+    if kind == "member":
+        return f'let mut client = M::{client_name}::with_base_url("http://127.0.0.1:1/").unwrap(); client.base_url = {url}.parse().unwrap();'
+    return f"let client = M::{client_name}::with_base_url({url}).unwrap();"
+
+
 def main(tier, seed, replay=None):
     res = Result("C03", tier, seed)
     vlib.build_repo()
@@ -431,7 +446,9 @@ def main(tier, seed, replay=None):
     sp = os.path.join(d, "spec.json")
     json.dump(spec, open(sp, "w"))
     viol = list(pm_viol)
-    variants = [("base", BASE_PATH), ("base-slash", BASE_PATH + "/"), ("root", "")]
+    # (base path, how the client is constructed: with_base_url / with_client / the public base_url member set afterwards)
+    variants = [("base", BASE_PATH), ("base-slash", BASE_PATH + "/"), ("root", ""), ("slash-with-client", BASE_PATH + "/"), ("slash-member", BASE_PATH + "/"), ("plain-with-client", BASE_PATH)]
+    ctor_of = {"slash-with-client": "client", "plain-with-client": "client", "slash-member": "member"}
     outp = os.path.join(d, "out")
     rc, txt = vlib.oas(["generate", "client-mod", "-i", sp, "-o", outp, "-q"], timeout=120)
     if rc != 0:
@@ -480,7 +497,7 @@ def main(tier, seed, replay=None):
         for (vn, bp) in (variants if k < 3 or opid in ("get_one",) and vals.get("id") in ("plain", "a/b") else variants[:1]):
             blocks.append((k, vn, f'''{{
     let (port, rx) = capture_server();
-    let client = M::{client_name}::with_base_url(format!("http://127.0.0.1:{{}}{bp}", port)).unwrap();
+    {ctor_line(client_name, ctor_of.get(vn, "url"), bp)}
     {" ".join(lines)}
     let res = rt.block_on(client.{opid}(r));
     match res {{
